@@ -258,6 +258,31 @@ def work(item, tier, seed):
     if d:
         res.violate(PROP, f"repeat-not-identical:{pname}", what=d, program=pname)
     if part == "transforms":
+        try:
+            return _transforms(res, tier, seed, pname, f, jargs, kw, sf, key, r0)
+        except Exception as ex:
+            from genjax.pjax import LoweringSamplePrimitiveToMLIRException
+
+            handler_stack.clear()
+            if isinstance(ex, LoweringSamplePrimitiveToMLIRException):
+                # eager seed(f) returned a value, but a transformation of the same seeded function
+                # is refused: the eager value came from a site seed did not interpret
+                res.violate(PROP, f"eager-accepted-but-transform-refused:{pname}", program=pname)
+                res.states += 1
+                res.transitions += 1
+                return res
+            raise
+    return _histories(res, tier, seed, pname, f, args, kw, jargs, sf, key, r0, call_eager, part)
+
+
+def _transforms(res, tier, seed, pname, f, jargs, kw, sf, key, r0):
+    import jax
+    import jax.numpy as jnp
+    from genjax import seed as gseed
+    from genjax.core import handler_stack
+    from mc import env
+
+    if True:
         # ---- eager == jit == vmap-over-keys == jit(vmap)
         keys = jax.random.split(jax.random.key(seed * 31 + 6), 3)
         base = []
@@ -340,6 +365,14 @@ def work(item, tier, seed):
         res.case(pname, "transforms")
         res.add_sample({"program": pname, "part": "transforms", "site_keys": [k.hex() for _n, k, _v in r0[1]][:8]})
         return res
+
+
+def _histories(res, tier, seed, pname, f, args, kw, jargs, sf, key, r0, call_eager, part):
+    import jax
+    from genjax import seed as gseed
+    from genjax.core import handler_stack
+    from mc import env
+
     # ---- interference histories
     ops = _interference(f, args, kw)
     depth = 2 if tier == "quick" else 3
